@@ -917,7 +917,7 @@ func init() {
 					// the readers under the race detector, used from 12 goroutines at once
 					reps := 6
 					if !ctx.Quick {
-						reps = 40
+						reps = 16
 					}
 					reports, work, err := runRaceBinary(reps, "readers")
 					if err != nil {
@@ -966,7 +966,8 @@ func init() {
 						nv := g.hash()
 						cap2 := append([]string(nil), capv...)
 						cap2[k] = nv.String()
-						if c.Int("i")%4 == 2 && g.expected[fmt.Sprintf("ConstantSigmasCap[%d]", k)].Sign() > 0 {
+						if ev := g.expected[fmt.Sprintf("ConstantSigmasCap[%d]", k)]; c.Int("i")%4 == 2 && new(big.Int).Mod(ev, bigR).Sign() != 0 {
+							// (a multiple of r and its negative are the same residue: not judged)
 							// the same digits with a minus sign: a different document; it is either
 							// refused or gives another residue (never the assignment of the unsigned one)
 							neg := new(big.Int).Neg(g.expected[fmt.Sprintf("ConstantSigmasCap[%d]", k)])
